@@ -323,6 +323,11 @@ func genbankFeatureParser(gb *GenBank, depth int) pars.Parser {
 		}
 		pars.Line(state, result)
 		state.Clear()
+		// An empty feature table: the next field starts right away.
+		if c, err := pars.Next(state); err == nil && c != spaceByte {
+			gb.Table = nil
+			return nil
+		}
 		if err := fieldBodyParser(state, result); err != nil {
 			return err
 		}
